@@ -15,18 +15,27 @@ LEVEL_TEXT = ("Theorems (Lean 4, any linearly ordered field, ALL tables with str
               "them (io axis increasing in magnitude, vi rows in ANY order and sign) every query stays within the range of the tabulated "
               "magnitudes (interp2_global_range) and 1-D knot exactness holds (interp1_knot_abs). The interpolator model is tied to "
               "the code on every run through the probe Source(V) -> component(table) -> ILoad(I) for all seven table-bearing "
-              "(kind, parameter) pairs. Not covered by the theorems: the exact value (knot / grid line / cell) for vi rows given in "
-              "shuffled order rests on the model's row sort and is checked by correspondence + oracle only. Former finding F11 (axis "
+              "(kind, parameter) pairs. Props/C10Rows lifts knot / grid-line / cell / clamp exactness to vi rows given in ANY "
+              "order and sign with pairwise distinct magnitudes (`interp2_rows_order_free`, `interp2_knot_any_order`, `..._edge_...`, "
+              "`..._cell_...`, `..._clamp_...`, and for every table `mkTable` accepts: `mkTable_knot_any_order`); rows of EQUAL |vi| are "
+              "accepted by constructor and model alike but are outside the property's conditioning, and there the model's row order is not "
+              "the implementation's (`dup_rows_not_order_free` shows the distinctness hypothesis cannot be dropped). Former finding F11 (axis "
               "increasing as given but not in magnitude) is fixed in /repo; the witness stays as a regression stream.")
 LEVEL_NOTE = "scipy's Qhull triangulation is a parameter (diag) of the model: every theorem quantifies over it; the harness accepts either diagonal."
 MODULE = "SysLoss.Props.C10"
+MODULES = ["SysLoss.Props.C10", "SysLoss.Props.C10Rows"]
 THEOREMS = ["SysLoss.C10." + t for t in (
     "interp1_knot", "interp1_linear", "interp1_range", "interp1_clamp_left", "interp1_clamp_right", "interp1_clamp",
     "interp1_sign", "interp_sign_as_used", "interp1_table_sign", "interp2_table_sign", "interp1_const",
     "cellVal_range", "interp2_inside", "interp2_clamp", "clamp_is_nearest", "interp2_eq_cellAt", "interp2_edge_x",
     "interp2_edge_y", "interp2_knot", "interp2_range", "interp2_range_exists", "interp2_const",
     "param_const_table_1d", "param_const_table_2d", "interp1_abs_axis", "interp1_knot_abs", "interp2_global_range",
-    "knot_negative_axis_fails")]
+    "knot_negative_axis_fails",
+    # Props/C10Rows: vi rows given in ANY order and sign (distinct magnitudes)
+    "sortRows_perm", "sortRows_sorted", "sortRows_eq_of_perm", "interp2_rows_order_free", "interp2_eq_normal", "normal_grid",
+    "interp2_knot_any_order", "interp2_edge_y_any_order", "interp2_edge_x_any_order", "interp2_edge_any_order",
+    "interp2_cell_any_order", "interp2_clamp_any_order", "accepted_of_mkTable", "mkTable_knot_any_order", "mkTable_clamp_any_order",
+    "dup_rows_accepted", "dup_rows_model_value", "dup_rows_not_order_free")]
 RULE = ("well-conditioned tables per the property (io strictly increasing, 2-8 columns, 1-6 vi rows mostly in increasing order and "
         "20% shuffled, steps >= 1e-3 of the largest coordinate, first io knot 0 in 30%) for Converter.eff, VLoss.vdrop, LinReg.ig, "
         "PSwitch.ig, PMux.ig, Rectifier.vdrop, Rectifier.ig; per table queries on knots, on grid lines, inside cells and outside on "
